@@ -765,6 +765,24 @@ impl Module for M {
                         ctx.expect(r3.rec.map == want && n3 == n1, "C14:bounded-target-picture-ne-cut-of-unbounded", || {
                             format!("box {}: {} px, expected {} px; next {:?} vs {:?}", fmt_rect(&tb), r3.rec.map.len(), want.len(), n3, n1)
                         });
+                        // the same box on a draw_iter-only target, and degenerate boxes (empty, flat, disjoint) on both kinds
+                        // of target: the picture is the unbounded picture restricted to the box (nothing for those), the
+                        // returned position is the one of the unbounded target
+                        let mut r4 = R1::<Rgb565>::new(tb);
+                        let n4 = draw_via(&style, via, bl, pos, &text, &mut r4);
+                        ctx.expect(r4.rec.map == restrict_map(&r1.rec.map, &tb) && n4 == n1, "C14:bounded-target-picture-ne-cut-of-unbounded", || {
+                            format!("draw_iter-only box {}: {} px, expected {} px; next {:?} vs {:?}", fmt_rect(&tb), r4.rec.map.len(), want.len(), n4, n1)
+                        });
+                        for (name, b) in degenerate_boxes(&tb) {
+                            let (mut d1, mut d2) = (R1::<Rgb565>::new(b), R2::<Rgb565>::new(b));
+                            let m1 = draw_via(&style, via, bl, pos, &text, &mut d1);
+                            let m2 = draw_via(&style, via, bl, pos, &text, &mut d2);
+                            let wantb = restrict_map(&r1.rec.map, &b);
+                            ctx.count("draw:degenerate-bounded-target");
+                            ctx.expect(d1.rec.map == wantb && d2.rec.map == wantb && m1 == n1 && m2 == n1, "C14:bounded-target-picture-ne-cut-of-unbounded", || {
+                                format!("{} box {}: {} / {} px, expected {} px; next {:?} / {:?} vs {:?}", name, fmt_rect(&b), d1.rec.map.len(), d2.rec.map.len(), wantb.len(), m1, m2, n1)
+                            });
+                        }
                     }
                     ctx.count(&format!("draw:via-{}", &via[..1]));
                     ctx.count(&format!("draw:text-{}:bg-{}", if tc == "-" { "none" } else { "set" }, if bg == "-" { "none" } else { "set" }));
